@@ -297,6 +297,7 @@ struct Endpoint {
     closed: bool,
     refused: bool,
     timer_at: Option<u64>,
+    rollback_cause: Option<String>,
 }
 
 fn ts(us: u64) -> Timestamp {
@@ -328,6 +329,8 @@ struct Sim<'p> {
     kinds: Fnv,
     faults: BTreeMap<(u8, u64), Vec<KFaultKind>>,
     stop: bool,
+    keep_tail: bool,
+    tail: std::collections::VecDeque<String>,
 }
 
 fn active_gen(e: &mut Endpoint) -> u64 {
@@ -352,13 +355,14 @@ impl<'p> Sim<'p> {
                 closed: false,
                 refused: false,
                 timer_at: None,
+                rollback_cause: None,
             }
         };
         let mut faults: BTreeMap<(u8, u64), Vec<KFaultKind>> = BTreeMap::new();
         for f in &plan.faults {
             faults.entry((f.dir, f.ord)).or_default().push(f.kind.clone());
         }
-        let mut s = Sim { plan, now: 1, seq: 0, q: BinaryHeap::new(), wires: vec![], eps: [mk(plan), mk(plan)], out: Outcome::default(), kinds: Fnv::default(), faults, stop: false };
+        let mut s = Sim { plan, now: 1, seq: 0, q: BinaryHeap::new(), wires: vec![], eps: [mk(plan), mk(plan)], out: Outcome::default(), kinds: Fnv::default(), faults, stop: false, keep_tail: true, tail: Default::default() };
         s.push(1, Ev::Send { ep: 0 });
         s.push(1 + plan.gap_us[1] / 2, Ev::Send { ep: 1 });
         s
@@ -369,12 +373,18 @@ impl<'p> Sim<'p> {
         self.q.push(Reverse((at.max(self.now), self.seq, ev)));
     }
 
-    fn log(&mut self, kind: &'static str, detail: impl FnOnce() -> String) {
+    fn log(&mut self, kind: &'static str, detail: impl FnOnce(&Self) -> String) {
         self.out.events += 1;
         self.kinds.write(kind.as_bytes());
-        if self.out.first_events.len() < 400 {
-            let d = detail();
+        if self.out.first_events.len() < 24 {
+            let d = detail(self);
             self.out.first_events.push(format!("t={}us {} {}", self.now, kind, d));
+        } else if self.keep_tail {
+            let d = detail(self);
+            if self.tail.len() == 60 {
+                self.tail.pop_front();
+            }
+            self.tail.push_back(format!("t={}us {} {}", self.now, kind, d));
         }
     }
 
@@ -401,7 +411,7 @@ impl<'p> Sim<'p> {
         let e = &self.eps[ep];
         if e.ks.key_update_in_progress() && e.ks.active_key().needs_update(&e.limits) {
             self.out.observe("precondition_violated_run_stopped");
-            self.log("precondition_violated", || format!("ep{ep}"));
+            self.log("precondition_violated", |_| format!("ep{ep}"));
             self.stop = true;
             return false;
         }
@@ -411,7 +421,15 @@ impl<'p> Sim<'p> {
     fn send(&mut self, ep: usize) {
         let plan = self.plan;
         let e = &mut self.eps[ep];
-        if e.closed || e.refused || e.sent >= plan.packets[ep] {
+        if e.closed || e.refused {
+            return;
+        }
+        if e.sent >= plan.packets[ep] {
+            // workload done: with a talking peer the run ends here, otherwise the other side
+            // would look like a peer that never answers
+            if plan.mute_b_after.is_none() {
+                self.stop = true;
+            }
             return;
         }
         if ep == 1 && plan.mute_b_after.is_some_and(|m| e.sent >= m) {
@@ -455,7 +473,7 @@ impl<'p> Sim<'p> {
                 if g != active {
                     self.out.probe("sent_with_next_key_before_rotation");
                 }
-                self.log("send", || format!("ep{ep} pn={pnv} gen={g} phase={} n_gen={n}", used_phase as u8));
+                self.log("send", |_| format!("ep{ep} pn={pnv} gen={g} phase={} n_gen={n}", used_phase as u8));
                 // oracle 1: per generation, #encryptions <= reported confidentiality limit
                 if n > plan.conf_limit {
                     self.violate("conf_limit_exceeded", "conf_limit_exceeded", format!("ep{ep} protected packet #{n} with generation {g}, reported aead_confidentiality_limit={}", plan.conf_limit));
@@ -463,7 +481,13 @@ impl<'p> Sim<'p> {
                 // oracle 2: generation non-decreasing in pn per sender (RFC 9001 6.4)
                 if let Some((ppn, pg)) = prev {
                     if g < pg {
-                        self.violate("generation_regressed", "generation_regressed", format!("ep{ep} protected pn={pnv} with generation {g} after pn={ppn} with generation {pg}"));
+                        let cause = self.eps[ep].rollback_cause.clone();
+                        let sig = if cause.is_some() { "generation_regressed:old_phase_packet_rolled_back_keys" } else { "generation_regressed:other" };
+                        self.violate(
+                            "generation_regressed",
+                            sig,
+                            format!("ep{ep} protected pn={pnv} with generation {g} after pn={ppn} with generation {pg} (RFC 9001 6.4: higher packet numbers MUST use the same or newer keys); cause: {}", cause.unwrap_or_else(|| "unknown".into())),
+                        );
                     }
                 }
                 buf.truncate(len);
@@ -478,10 +502,18 @@ impl<'p> Sim<'p> {
                 let a = active_gen(e);
                 let counts = e.enc_per_gen.clone();
                 self.out.probe("encrypt_refused_aead_limit");
-                self.log("send_refused", || format!("ep{ep} AeadLimitReached active_gen={a} counts={counts:?}"));
-                // refusing is only expected when some generation is used up
-                if !counts.values().any(|c| *c >= plan.conf_limit) {
-                    self.out.observe("refused_before_any_generation_reached_limit");
+                self.log("send_refused", |_| format!("ep{ep} AeadLimitReached active_gen={a} counts={counts:?}"));
+                // "the endpoint starts a key update before reaching the limit": with a peer that
+                // keeps answering (every family but silent_peer; loss bursts and delays are
+                // bounded by the plan) no key may ever be used up
+                if plan.mute_b_after.is_none() {
+                    let cause = self.eps[0].rollback_cause.clone().or(self.eps[1].rollback_cause.clone());
+                    let sig = if cause.is_some() { "refused_although_peer_answers:old_phase_packet_rolled_back_keys" } else { "refused_although_peer_answers:other" };
+                    self.violate(
+                        "refused_although_peer_answers",
+                        sig,
+                        format!("ep{ep}: encrypt_packet returned AeadLimitReached (active generation {a}, per-generation counts {counts:?}, limit {}) although the peer answers: no key update was started or completed in time; cause: {}", plan.conf_limit, cause.unwrap_or_else(|| "unknown".into())),
+                    );
                 }
             }
             Err(other) => {
@@ -495,6 +527,10 @@ impl<'p> Sim<'p> {
             let j = if plan.jitter_us > 0 { hashn(plan.seed, &[0x71, ep as u64, e.sent]) % plan.jitter_us } else { 0 };
             let at = self.now + plan.gap_us[ep] + j;
             self.push(at, Ev::Send { ep });
+        } else if !e.refused && plan.mute_b_after.is_none() {
+            // workload done: with a talking peer the run ends here, otherwise the other side
+            // would look like a peer that never answers
+            self.stop = true;
         }
     }
 
@@ -551,7 +587,7 @@ impl<'p> Sim<'p> {
         }
         if dropped {
             self.out.fault("loss");
-            self.log("drop", || format!("dir{dir} ord={ord}"));
+            self.log("drop", |_| format!("dir{dir} ord={ord}"));
             return;
         }
         if delay > 0 {
@@ -578,11 +614,11 @@ impl<'p> Sim<'p> {
         // decode exactly like the endpoint: ProtectedPacket::decode -> unprotect -> decrypt_packet
         let decoded = ProtectedPacket::decode(DecoderBufferMut::new(&mut bytes), &info, &DCID.len());
         let Ok((ProtectedPacket::Short(protected), _)) = decoded else {
-            self.log("rx_undecodable", || format!("ep{to} wire={wire}"));
+            self.log("rx_undecodable", |_| format!("ep{to} wire={wire}"));
             return;
         };
         let Ok(encrypted) = protected.unprotect(&NoHp, pn0()) else {
-            self.log("rx_unprotect_failed", || format!("ep{to} wire={wire}"));
+            self.log("rx_unprotect_failed", |_| format!("ep{to} wire={wire}"));
             return;
         };
         let pkt_phase = encrypted.key_phase();
@@ -601,7 +637,7 @@ impl<'p> Sim<'p> {
                 if gpn != pkt_pn {
                     self.violate("harness_pn_mismatch", "harness", format!("decoded pn {pkt_pn} != sent {gpn}"));
                 }
-                self.log("rx_ok", || format!("ep{to} pn={gpn} gen={g} phase={} rcv_gen {c_before}->{c_after} in_progress={in_progress} rotated={rot:?}", pkt_phase as u8));
+                self.log("rx_ok", |_| format!("ep{to} pn={gpn} gen={g} phase={} rcv_gen {c_before}->{c_after} in_progress={in_progress} rotated={rot:?}", pkt_phase as u8));
                 let e = &mut self.eps[to];
                 e.largest_rx = e.largest_rx.max(gpn);
                 if g == c_before + 1 {
@@ -619,14 +655,16 @@ impl<'p> Sim<'p> {
                     // retention window: must be readable and must not change the send keys
                     self.out.probe("old_generation_packet_opened_after_update");
                     if c_after != c_before || phase_after != phase_before {
-                        self.violate(
-                            "old_packet_rolls_back_keys",
-                            "old_packet_rolls_back_keys",
-                            format!(
-                                "ep{to} (active generation {c_before}, phase {}, derivation timer armed={in_progress}) opened delayed genuine pn={gpn} of generation {g} (phase bit {}) and switched its active key to generation {c_after} / phase {} (decrypt_packet returned key-update generation {rot:?})",
-                                phase_before as u8, pkt_phase as u8, phase_after as u8
-                            ),
+                        // Not yet a violation of the property statement: recorded as the cause
+                        // and reported when this endpoint next protects a packet with the older
+                        // generation (RFC 9001 6.4) or fails to open a genuine packet.
+                        self.out.observe("old_phase_packet_rolled_back_keys");
+                        let d = format!(
+                            "at t={}us ep{to} (active generation {c_before}, phase {}, derivation timer armed={in_progress}) opened delayed genuine pn={gpn} of generation {g} (phase bit {}) and decrypt_packet switched its active key back to generation {c_after} / phase {} reporting key-update generation {rot:?}",
+                            self.now, phase_before as u8, pkt_phase as u8, phase_after as u8
                         );
+                        self.log("ROLLBACK", |_| d.clone());
+                        self.eps[to].rollback_cause = Some(d);
                     }
                 } else {
                     self.violate("opened_with_wrong_generation", "opened_with_wrong_generation", format!("ep{to} active generation {c_before} opened pn={gpn} of generation {g}"));
@@ -637,13 +675,15 @@ impl<'p> Sim<'p> {
                 self.eps[to].failures += 1;
                 let n = self.eps[to].failures;
                 let must = g == c_before || (g == c_before + 1 && !in_progress) || (g + 1 == c_before && in_progress);
-                self.log("rx_genuine_rejected", || format!("ep{to} pn={gpn} gen={g} rcv_gen={c_before} in_progress={in_progress} failures={n} err={err:?}"));
+                self.log("rx_genuine_rejected", |_| format!("ep{to} pn={gpn} gen={g} rcv_gen={c_before} in_progress={in_progress} failures={n} err={err:?}"));
                 if must {
                     // oracle 3
+                    let cause = self.eps[w.from].rollback_cause.clone().or(self.eps[to].rollback_cause.clone());
+                    let sig = if cause.is_some() { "genuine_packet_rejected:old_phase_packet_rolled_back_keys" } else { "genuine_packet_rejected:other" };
                     self.violate(
                         "genuine_packet_rejected",
-                        "genuine_packet_rejected",
-                        format!("ep{to} (active generation {c_before}, derivation timer armed={in_progress}) failed to open genuine pn={gpn} protected with generation {g} by ep{}", w.from),
+                        sig,
+                        format!("ep{to} (active generation {c_before}, derivation timer armed={in_progress}) failed to open genuine pn={gpn} protected with generation {g} by ep{}; cause: {}", w.from, cause.unwrap_or_else(|| "unknown".into())),
                     );
                 } else {
                     self.out.observe("late_old_generation_packet_dropped");
@@ -656,7 +696,7 @@ impl<'p> Sim<'p> {
             (None, Err(_)) => {
                 self.eps[to].failures += 1;
                 let n = self.eps[to].failures;
-                self.log("rx_forged_rejected", || format!("ep{to} phase={} failures={n} limit_err={}", pkt_phase as u8, is_limit_err(&res)));
+                self.log("rx_forged_rejected", |_| format!("ep{to} phase={} failures={n} limit_err={}", pkt_phase as u8, is_limit_err(&res)));
                 if c_after != c_before || phase_after != phase_before {
                     self.violate("forged_packet_changed_keys", "forged_packet_changed_keys", format!("ep{to} generation {c_before}->{c_after} after a failed authentication"));
                 }
@@ -677,7 +717,7 @@ impl<'p> Sim<'p> {
             }
             // the connection is closed by the transport at this point
             self.eps[ep].closed = true;
-            self.log("closed_aead_limit", || format!("ep{ep} failures={failures}"));
+            self.log("closed_aead_limit", |_| format!("ep{ep} failures={failures}"));
         } else if limit_err {
             self.violate("integrity_limit_premature", "integrity_limit_premature", format!("ep{ep}: AEAD_LIMIT_REACHED after {failures} failed authentications, aead_integrity_limit={lim}"));
         }
@@ -702,7 +742,7 @@ impl<'p> Sim<'p> {
         let g_after = active_gen(&mut self.eps[ep]);
         if before && !after {
             self.out.probe("next_key_derived_on_timer");
-            self.log("derive_next", || format!("ep{ep} active_gen={g_after}"));
+            self.log("derive_next", |_| format!("ep{ep} active_gen={g_after}"));
         }
         if g_before != g_after {
             self.violate("timer_changed_active_key", "timer_changed_active_key", format!("ep{ep} generation {g_before}->{g_after} in on_timeout"));
@@ -723,7 +763,8 @@ impl<'p> Sim<'p> {
                 Ev::Timer { ep } => self.timer(ep, false),
                 Ev::Spurious { ep } => self.timer(ep, true),
             }
-            if self.eps.iter().all(|e| e.closed) {
+            // AEAD_LIMIT_REACHED closes the connection for both sides
+            if self.eps.iter().any(|e| e.closed) {
                 break;
             }
         }
@@ -747,6 +788,11 @@ impl<'p> Sim<'p> {
         self.out.nontrivial = pre_ok
             && reorder_or_forge
             && (updates >= 2 || self.out.probes.contains_key("integrity_limit_reached") || self.out.probes.contains_key("encrypt_refused_aead_limit"));
+        if !self.tail.is_empty() {
+            self.out.first_events.push("...".into());
+            self.out.first_events.extend(self.tail.drain(..));
+        }
+        self.out.aux = vec![self.eps[0].sent, self.eps[1].sent];
         self.out.sim_us = self.now;
         self.out.kind_hash = simkit::mix64(self.kinds.0);
         self.out
@@ -777,27 +823,39 @@ impl Engine for C15 {
     }
 
     fn minimise(&self, plan: &KPlan, oracle: &str) -> KPlan {
-        let fails = |p: &KPlan| run_plan(p).violations.iter().any(|v| v.oracle == oracle);
+        let mut budget = 250u32;
+        let mut fails = |p: &KPlan| {
+            if budget == 0 {
+                return false;
+            }
+            budget -= 1;
+            run_plan(p).violations.iter().any(|v| v.oracle == oracle)
+        };
         let mut cur = plan.clone();
-        let faults = cur.faults.clone();
-        let min = ddmin(&faults, |fs| {
+        // 1. end the workload right after the violation
+        let out = run_plan(&cur);
+        if out.aux.len() == 2 && !out.violations.is_empty() {
             let mut p = cur.clone();
+            p.packets = [(out.aux[0] + 2).min(p.packets[0]), (out.aux[1] + 2).min(p.packets[1])];
+            if let Some(m) = p.mute_b_after {
+                p.mute_b_after = Some(m.min(p.packets[1]));
+            }
+            p.faults.retain(|f| f.ord < p.packets[f.dir as usize]);
+            if fails(&p) {
+                cur = p;
+            }
+        }
+        // 2. ddmin over the fault list
+        let faults = cur.faults.clone();
+        let base = cur.clone();
+        let min = ddmin(&faults, |fs| {
+            let mut p = base.clone();
             p.faults = fs.to_vec();
             fails(&p)
         });
         let mut p = cur.clone();
         p.faults = min;
         if fails(&p) {
-            cur = p;
-        }
-        // fewer packets
-        for _ in 0..24 {
-            let mut p = cur.clone();
-            p.packets = [p.packets[0] * 3 / 4, p.packets[1] * 3 / 4];
-            p.faults.retain(|f| f.ord < p.packets[f.dir as usize]);
-            if p.packets[0] == cur.packets[0] || !fails(&p) {
-                break;
-            }
             cur = p;
         }
         if cur.jitter_us != 0 {
@@ -852,6 +910,6 @@ impl Engine for C15 {
     }
 
     fn quick_runs(&self) -> u64 {
-        std::env::var("LINKSIM_QUICK_RUNS").ok().and_then(|s| s.parse().ok()).unwrap_or(40_000)
+        std::env::var("LINKSIM_QUICK_RUNS").ok().and_then(|s| s.parse().ok()).unwrap_or(6_000)
     }
 }
